@@ -241,7 +241,7 @@ const c05PairID = gen.NsA + "pair" // written only by transactions, to both data
 const c05TwinA = gen.NsA + "twinA" // always written together in one batch
 const c05TwinB = gen.NsA + "twinB"
 
-func genC05Case(r *rand.Rand, clients, readers, opsPer int) c05Case {
+func genC05Case(r *rand.Rand, clients, readers, opsPer int, churn bool) c05Case {
 	c := c05Case{Clients: clients, Readers: readers, Datasets: []string{"da", "db", "dc"}}
 	ids := gen.NewVocab(5, 1, 1).IDs
 	for cl := 0; cl < clients+readers; cl++ {
@@ -295,6 +295,16 @@ func genC05Case(r *rand.Rand, clients, readers, opsPer int) c05Case {
 			if cl != 0 && i%4 == 1 {
 				// a new id into the dataset that is being renamed back and forth (whatever its name is right now)
 				ops = append(ops, c05Op{Client: cl, Kind: "rnwrite", DS: []string{"rnA", "rnB"}, IDs: []string{fmt.Sprintf("%srn-%d-%d", gen.NsA, cl, i)}, Tag: tag})
+				continue
+			}
+			if churn && i%3 == 2 {
+				// dataset churn (race stage): scratch datasets are created, written and deleted all the time while the
+				// readers look entities up (every lookup consults the set of deleted datasets)
+				if i%6 == 2 {
+					ops = append(ops, c05Op{Client: cl, Kind: "mkds", DS: []string{fmt.Sprintf("tmp%d", cl)}, IDs: []string{ids[0]}, Tag: tag})
+				} else {
+					ops = append(ops, c05Op{Client: cl, Kind: "rmds", DS: []string{fmt.Sprintf("tmp%d", cl)}})
+				}
 				continue
 			}
 			switch k := r.Intn(100); {
@@ -380,7 +390,7 @@ func c05Conc(ctx *Ctx) error {
 		return nil
 	}
 	for i := 0; i < ctx.Cases; i++ {
-		runC05Case(ctx, genC05Case(r, clients, readers, opsPer))
+		runC05Case(ctx, genC05Case(r, clients, readers, opsPer, ctx.Arg("churn", "") != ""))
 	}
 	return nil
 }
